@@ -383,3 +383,6 @@ func CoqSeg(t netx.TCPSeg) string {
 	}
 	return fmt.Sprintf("(mkSeg %d %d %d %d %s %s %s)", t.Seq, t.Ack, t.Flags, t.Wnd, ZL(t.Payload), netx.B(ts), netx.B(tsecr))
 }
+
+// OptInfo reports which SYN options an option block carries (timestamps, SACK-permitted, window scale).
+func OptInfo(o []byte) (ts, sack, ws bool, tsval uint32) { return optInfo(o) }
